@@ -29,7 +29,7 @@ RULE = ("configurations: 1-3 growers (distinct batches, or the same batch twice)
         "distinct by its Mazurkiewicz trace signature; non-trivial when it contains >= 2 actors' events interleaved")
 ASSUMPTIONS = [
     "interleaving granularity = Python-level file operations (create, each of <= 3 write prefixes, close, rename, stat, open, read, list, unlink)",
-    "when the same batch is grown twice, or a poller is present, the reaper is run with clean_up=False (a redundant grower or a poller racing with the clean-up is outside the statement)",
+    "when a poller is present the reaper is run with clean_up=False (a progress query racing with the deletion of the crop has no truth to be compared with); with the same batch grown twice the reaper runs with clean_up=False in the poller / write-fault / MPI configurations and with its DEFAULT clean-up in the *_cleanup ones, where the redundant grower may fail once the reaper has delivered",
     "sleep is virtual: a sleeper is rescheduled only after another actor mutated something; a run where all live actors sleep forever is reported as stuck",
 ]
 SHARDS = {"quick": 8, "thorough": 16}
@@ -42,6 +42,7 @@ MIN_REACH = {
     "distinct_dfs_parts_exhausted": {"quick": 2, "thorough": 2},
     "growers_whose_result_write_failed_part_way": {"quick": 150, "thorough": 3000},
     "growers_running_as_a_non_root_mpi_rank": {"quick": 150, "thorough": 3000},
+    "redundant_growers_that_found_the_crop_gone": {"quick": 30, "thorough": 600},
 }
 TIME_BUDGET = {"quick": 400, "thorough": 3400}
 CASE_TIMEOUT = {"quick": 380, "thorough": 3000}
@@ -68,6 +69,11 @@ CONFIGS = {
     "g2same_reaper_mpi": (2, 2, [1, 1], True, 0),
     "g2same_poller_mpi": (2, 2, [1, 1], False, 2),
     "g3mixed_reaper_poller_mpi": (4, 2, [1, 2, 1], True, 2),
+    # the same batch grown twice while the reaper waits with its DEFAULT clean-up: the reaper reads the first finished copy,
+    # and may start deleting the crop while the redundant grower is still about to publish - it must still return the exact
+    # results (the redundant grower may then find the crop gone: its failure is its own)
+    "g2same_reaper_cleanup": (2, 2, [1, 1], True, 0),
+    "g3mixed_reaper_cleanup": (4, 2, [1, 2, 1], True, 0),
 }
 
 
@@ -80,7 +86,8 @@ def cases(ctx):
     for cfg, cap in (("g2same_poller", ctx.pick(250, 8000)), ("g2_reaper", ctx.pick(250, 8000)),
                      ("g2same_reaper", ctx.pick(150, 8000)), ("g2same_reaper_wfail", ctx.pick(150, 4000)),
                      ("g2same_poller_wfail", ctx.pick(100, 4000)),
-                     ("g2same_reaper_mpi", ctx.pick(100, 4000)), ("g2same_poller_mpi", ctx.pick(80, 4000))):
+                     ("g2same_reaper_mpi", ctx.pick(100, 4000)), ("g2same_poller_mpi", ctx.pick(80, 4000)),
+                     ("g2same_reaper_cleanup", ctx.pick(200, 6000))):
         for j in range(J):
             yield {"cfg": cfg, "mode": "dfs", "cap": cap, "kind": "array:30", "part": [j, J]}
     # validation of the reduction itself: brute force over ALL interleavings vs. sleep sets
@@ -138,6 +145,7 @@ class World(object):
         self.w = {"mode": "grid", "combos": [["a", list(range(1, self.n + 1))]], "names": None, "cases": None}
         self.same_batch_twice = len(set(self.growers)) < len(self.growers)
         self.wfail = cfg.endswith("_wfail")
+        self.cleanup = cfg.endswith("_cleanup")
         self.mpi = ["PMI_RANK", "OMPI_COMM_WORLD_RANK"][len(kind) % 2] if cfg.endswith("_mpi") else None
         self.resdir = os.path.join(self.root, ".xyz-" + NAME, "results")
 
@@ -229,7 +237,7 @@ def run_schedule(world, chooser):
 
     def reaper():
         crop = xyzpy.Crop(name=NAME, parent_dir=root)
-        return crop.reap(wait=True, clean_up=False if (world.same_batch_twice or world.polls) else None)
+        return crop.reap(wait=True, clean_up=False if ((world.same_batch_twice and not world.cleanup) or world.polls) else None)
 
     def poller():
         crop = xyzpy.Crop(name=NAME, parent_dir=root)
@@ -280,6 +288,9 @@ def judge(ctx, world, obs, case, extra_sig):
     for name, a in S.actors.items():
         if a.outcome[0] == "exc":
             e = a.outcome[1]
+            if world.cleanup and name.startswith("g") and isinstance(e, OSError) and S.actors["reaper"].outcome[0] == "ok":
+                ctx.count("redundant_growers_that_found_the_crop_gone")
+                continue        # the reaper had delivered and was deleting the crop: the late grower's failure is its own
             if obs.get("injected") and name == "g0" and e is obs["injected"][0]:
                 ctx.count("growers_whose_result_write_failed_part_way")
                 continue        # the injected fault itself, surfacing in the grower it was injected into
